@@ -49,6 +49,9 @@ def handmade(rng, k):
     inner.add(Field("a", gen.pick_base(rng), 1))
     inner.add(Field("b", gen.pick_base(rng), 2))
     inner.add(Field("c", Arr(gen.pick_base(rng), rng.choice([1, 2, 3, 7]), ext=rng.random() < 0.5), 3))
+    # 2-D / 3-D arrays through aliases, extensible at every level: the element of an extensible array can itself grow
+    row = f.add(Alias("Row", Arr(gen.pick_base(rng), rng.choice([2, 3, 4]), ext=rng.random() < 0.8)))
+    plane = f.add(Alias("Plane", Arr(Ref(row), rng.choice([2, 3]), ext=rng.random() < 0.8)))
     mid = f.add(Message("Middle", ext=rng.random() < 0.7))
     mid.add(Field("head", gen.pick_base(rng), 1))
     mid.add(Field("items", Arr(Ref(inner), rng.choice([1, 2, 3, 5]), ext=True), 2))
@@ -57,6 +60,12 @@ def handmade(rng, k):
     mid.add(Field("after_one", gen.pick_base(rng), 5))
     mid.add(Field("bits", Arr(Base("bool"), rng.choice([6, 9, 20, 33]), ext=True), 6))
     mid.add(Field("after_bits", Base("uint", rng.choice([3, 11, 16])), 7))
+    mid.add(Field("table", Arr(Ref(row), rng.choice([2, 3]), ext=True), 8))
+    mid.add(Field("after_table", Base("uint", rng.choice([7, 9])), 9))
+    mid.add(Field("cube", Arr(Ref(plane), 2, ext=rng.random() < 0.7), 10))
+    mid.add(Field("after_cube", Base("int", rng.choice([6, 12])), 11))
+    mid.add(Field("flat", Ref(plane), 12))
+    mid.add(Field("after_flat", Base("bool"), 13))
     top = f.add(Message("Packet", ext=rng.random() < 0.5))
     top.add(Field("m", Ref(mid), 1))
     top.add(Field("tail", Base("int", rng.choice([5, 13, 24, 64])), 2))
@@ -104,13 +113,15 @@ def worker(ctx):
             continue
         top = ctx.casedir(case_id)
         wit = {"case": case_id, "shard": ctx.shard}
+        # C decoders: every hand-shaped case (cheap, and they hold the shapes the statement names) and a sample of the random ones
+        use_c = case_id % 3 == 0 or case_id % c_every == 0
         try:
             dirs = []
             try:
                 for vi, (root, _) in enumerate(versions):
                     d = os.path.join(top, f"v{vi}")
                     os.makedirs(d)
-                    comp = sut_compiler.compile_schema(root, d, ["py", "c"] if case_id % c_every == 0 else ["py"])
+                    comp = sut_compiler.compile_schema(root, d, ["py", "c"] if use_c else ["py"])
                     dirs.append((d, comp))
             except Exception as e:
                 res.count("skipped_compile_error")
@@ -141,7 +152,6 @@ def worker(ctx):
                         cases.append((m, v, bufs))
             finally:
                 mods_new.close()
-            use_c = case_id % c_every == 0
             if use_c:
                 try:
                     exe = sut_c.build(dirs[0][0], newest, "gcc-O0-sep")
